@@ -187,4 +187,55 @@ theorem propAtype_none_decomp (o : Nat) (key : String) (v : Val) (s : State) (ta
   simp only [hnv, if_false, hdt, htr, ne_eq, not_true_eq_false, or_self]
   rfl
 
+/-- the last statement of `prop_atype(key, value, atype=t)`: `self.view[key][self.atype == t] = value`. -/
+def maskAssign (o : Nat) (key : String) (v : Val) (t : Int) : M Unit := do
+  let s' ← getS
+  let a ← keyErr ((s'.obj o).find key)
+  let ta' ← keyErr ((s'.obj o).find "atype")
+  let mask := (arrVal s' ta').data.map (fun c => c.num? == some (t : Rat))
+  assign a { pos := maskSel mask.length mask, view := false, scalar := false, mask := true } v
+
+/-- `atoms.prop_atype(key, value, atype=t)` is: (for a NEW key) `view[key] = zeros_like(value)`, then the
+    `atype ≥ 1` guard, then the boolean-mask assignment `view[key][atype == t] = value` — provided `t` is one of
+    the atom types (otherwise it is refused, see the definition). -/
+theorem propAtype_some_decomp (o : Nat) (key : String) (v : Val) (t : Int) (s : State) (ta : Arr) (nt : Nat)
+    (hfind : (s.obj o).find "atype" = some ta)
+    (hnt : (natypes o s).1 = .ok nt) (ht : 1 ≤ t ∧ t ≤ (nt : Int)) (htr : arrTrail s ta = []) :
+    propAtype o key v (some t) s =
+      ((match (s.obj o).find key with
+        | some _ => pure ()
+        | none => viewSet o key (.lit (zerosLike v)) : M Unit) >>= fun _ =>
+       atypeGuard key v >>= fun _ => maskAssign o key v t) s := by
+  unfold propAtype
+  show M.bind getS _ s = _
+  unfold M.bind getS
+  simp only [hfind, keyErr, liftO, M.pure]
+  show M.bind (natypes o) _ s = _
+  unfold M.bind
+  rw [natypes_eq o s, hnt]
+  simp only [ht, and_self, not_true_eq_false, if_false, htr, ne_eq]
+  rfl
+
+/-- on an existing property: the guard, then one boolean-mask assignment with the mask taken from the atom
+    types before the write (`assign_spec` gives the values). -/
+theorem propAtype_some_existing (o : Nat) (key : String) (v : Val) (t : Int) (s : State) (ta a : Arr) (nt : Nat)
+    (hfind : (s.obj o).find "atype" = some ta) (hkey : (s.obj o).find key = some a)
+    (hnt : (natypes o s).1 = .ok nt) (ht : 1 ≤ t ∧ t ≤ (nt : Int)) (htr : arrTrail s ta = []) :
+    propAtype o key v (some t) s =
+      (atypeGuard key v >>= fun _ =>
+         assign a { pos := maskSel ((arrVal s ta).data.map (fun c => c.num? == some (t : Rat))).length
+                            ((arrVal s ta).data.map (fun c => c.num? == some (t : Rat))),
+                    view := false, scalar := false, mask := true } v) s := by
+  rw [propAtype_some_decomp o key v t s ta nt hfind hnt ht htr]
+  simp only [hkey]
+  rcases atypeGuard_cases key v with ⟨e, hg⟩ | ⟨hg, hguard⟩
+  · rw [hg]; rfl
+  · rw [hg]
+    show (keyErr ((s.obj o).find key) >>= fun a' => keyErr ((s.obj o).find "atype") >>= fun ta' =>
+      assign a' { pos := maskSel ((arrVal s ta').data.map (fun c => c.num? == some (t : Rat))).length
+                            ((arrVal s ta').data.map (fun c => c.num? == some (t : Rat))),
+                  view := false, scalar := false, mask := true } v) s = _
+    rw [hkey, hfind]
+    rfl
+
 end Atomman.C06
